@@ -16,7 +16,7 @@ func hashOf(b byte) common.Hash { return common.BytesToHash(rep(b, 32)) }
 
 var (
 	hA, hB, hC, hD = hashOf(0xa1), hashOf(0xb2), hashOf(0xc3), hashOf(0x04)
-	u64s3          = []uint64{0, 1, math.MaxUint64}
+	u64s3          = []uint64{0, math.MaxUint64, 1}
 	u64s2          = []uint64{0, math.MaxUint64}
 	bytes3         = [][]byte{nil, {}, {0x00, 0x01, 0xff, 0x80}}
 )
@@ -152,11 +152,54 @@ func headerSpace(full bool) *space[hdr] {
 			h.Hash = h.GenHash()
 		}
 	})
-	name := "header-quick"
+	name := "header-mid"
 	if full {
 		name = "header-full"
 	}
 	return &space[hdr]{name: name, dims: ds, strict: true, cd: hdrCodec}
+}
+
+// headerSpaceQuick: the "mid" alphabets with PreTime/CurTime varied jointly (6 pairs instead of 36).
+func headerSpaceQuick() *space[hdr] {
+	s := headerSpace(false)
+	times := timeAlphabet(false)
+	var ds []dim[hdr]
+	for _, d := range s.dims {
+		switch d.name {
+		case "PreTime":
+			ds = append(ds, dim[hdr]{"PreTime+CurTime", len(times), func(h *hdr, i int) {
+				h.PreTime, h.CurTime = times[i], times[(i+1)%len(times)]
+			}})
+		case "CurTime":
+		default:
+			ds = append(ds, d)
+		}
+	}
+	s.name, s.dims = "header-quick", ds
+	return s
+}
+
+// restrict replaces the size of the named dimensions (keeping their first n values).
+func restrict[T any](s *space[T], name string, sizes map[string]int) *space[T] {
+	ds := make([]dim[T], len(s.dims))
+	copy(ds, s.dims)
+	for i := range ds {
+		if n, ok := sizes[ds[i].name]; ok {
+			if n > ds[i].n {
+				panic("harness: restrict")
+			}
+			ds[i].n = n
+		}
+	}
+	return &space[T]{name: name, dims: ds, strict: s.strict, cd: s.cd}
+}
+
+func txSpaceQuick() *space[txT] {
+	return restrict(txSpace(), "tx-quick", map[string]int{"Type": 3, "ExtraDataType": 2, "RequestId": 2})
+}
+
+func groupSpaceQuick() *space[grp] {
+	return restrict(groupSpace(false), "group-quick", map[string]int{"PreGroup": 1, "CreateBlockHash": 1, "PubKey": 1, "Signature": 2})
 }
 
 type txT = types.Transaction
@@ -186,7 +229,7 @@ func subTxAlphabet() [][]types.UserData {
 func txSpace() *space[txT] {
 	signs := signAlphabet()
 	subs := subTxAlphabet()
-	i32 := []int32{0, 1, math.MaxInt32, -1, math.MinInt32}
+	i32 := []int32{0, -1, math.MaxInt32, 1, math.MinInt32}
 	var ds []dim[txT]
 	add := func(name string, n int, set func(*txT, int)) { ds = append(ds, dim[txT]{name, n, set}) }
 	add("Source", 2, func(t *txT, i int) { t.Source = []string{"", "0x1111111111111111111111111111111111111111"}[i] })
